@@ -894,6 +894,17 @@ put_char_space(struct caption *cc, cc_channel *ch)
 	put_char (cc, ch, c);
 }
 
+static void
+backspace(struct caption *cc, cc_channel *ch)
+{
+	if (ch->col > 1) {
+		ch->line[--ch->col] = cc->transp_space[ch >= &cc->channel[4]];
+
+		if (ch->col < ch->col1)
+			ch->col1 = ch->col;
+	}
+}
+
 static inline cc_channel *
 switch_channel(struct caption *cc, cc_channel *ch, int new_chan)
 {
@@ -1001,7 +1012,11 @@ caption_command(vbi_decoder *vbi, struct caption *cc,
 
 	switch (c1) {
 	case 0:		/* Backgr. Attr. Codes -- 001 c000  010 xxxt */
-		/* EIA 608-B Section 6.2. */
+		/* EIA 608-B Section 6.2: "Each Background Attribute Code
+		   incorporates an automatic backspace for backward
+		   compatibility with standard decoders." */
+		backspace(cc, ch);
+
 		ch->attr.opacity = (c2 & 1) ? VBI_SEMI_TRANSPARENT : VBI_OPAQUE;
 		ch->attr.background = palette_mapping[(c2 >> 1) & 7];
 
@@ -1152,12 +1167,8 @@ caption_command(vbi_decoder *vbi, struct caption *cc,
 
 		case 1:		/* Backspace			001 c10f  010 0001 */
 // not verified
-			if (ch->mode && ch->col > 1) {
-				ch->line[--ch->col] = cc->transp_space[chan >> 2];
-
-				if (ch->col < ch->col1)
-					ch->col1 = ch->col;
-			}
+			if (ch->mode)
+				backspace(cc, ch);
 
 			return;
 
@@ -1258,28 +1269,37 @@ caption_command(vbi_decoder *vbi, struct caption *cc,
 			return;
 
 		case 0x2D:		/* Optional Attributes		001 c111  010 11xx */
-// not verified
+			/* EIA 608-B Section 6.2, Table 3: Background
+			   Transparent, a Background Attribute Code. */
+			backspace(cc, ch);
+
 			ch->attr.opacity = VBI_TRANSPARENT_FULL;
-			break;
+
+			put_char_space(cc, ch);
+
+			return;
 
 		case 0x2E:		/* Optional Attributes		001 c111  010 11xx */
 		case 0x2F:
-// not verified
+			/* EIA 608-B Section 6.2: "As with standard Mid
+			   Row Codes, the Foreground Attribute Codes turn
+			   off italics and flash, and the least-significant
+			   bit controls underlining. Each Foreground
+			   Attribute Code incorporates an automatic
+			   backspace". */
+			backspace(cc, ch);
+
 			ch->attr.foreground = VBI_BLACK;
+			ch->attr.italic = FALSE;
+			ch->attr.flash = FALSE;
 			ch->attr.underline = c2 & 1;
-			break;
+
+			put_char_space(cc, ch);
+
+			return;
 
 		default:
 			return;
-		}
-
-		/* Optional Attributes, backspace magic */
-
-		if (ch->col > 1 && (ch->line[ch->col - 1].unicode & 0x7F) == 0x20) {
-			vbi_char c = ch->attr;
-
-			c.unicode = 0x0020;
-			ch->line[ch->col - 1] = c;
 		}
 	}
 }
